@@ -35,14 +35,13 @@ CLS = {
 }
 CHARS = {
     '1': ['A'], '2': ['L2', 'C'], '3': ['L3', 'C', 'C'], '3e0': ['E0', 'C_E0', 'C'], '3ed': ['ED', 'C_ED', 'C'], '3ef': ['EF', 'C', 'C'],
-    '4': ['L4', 'C', 'C', 'C'], '4f0': ['F0', 'C_F0', 'C', 'C'], '4f4': ['F4', 'C_F4', 'C', 'C'], 'cr': ['CR'], 'lf': ['LF'], 'x': ['ANY'],
+    '4': ['L4', 'C', 'C', 'C'], 'L2only': ['L2'], '4f0': ['F0', 'C_F0', 'C', 'C'], '4f4': ['F4', 'C_F4', 'C', 'C'], 'cr': ['CR'], 'lf': ['LF'], 'x': ['ANY'],
 }
 
 PRELUDE = '''
 from vf.jslower import build as _jsb
 from vf.jslower import jsrt
-_mods, _report = _jsb.build()
-jsc = _jsb._load('js_rbql_csv', _mods['js_rbql_csv'])
+jsc = _jsb._load('js_rbql_csv', _jsb.path_of('js_rbql_csv'))
 
 
 def bulk(data, enc, dlm, policy, comment):
@@ -54,6 +53,16 @@ def bulk(data, enc, dlm, policy, comment):
 
 def norm(r):
     return ('ok', r[1], sorted(r[2])) if r[0] == 'ok' else r
+
+
+def node_check(*bs):
+    """Replay in REAL node: public async API over a stream.Readable emitting exactly these Buffers vs bulk reading of the same bytes."""
+    data = [int(b) for b in bs]
+    chunks = [data[BOUNDS[k]:BOUNDS[k + 1]] for k in range(len(BOUNDS) - 1)]
+    base = {'encoding': ENC, 'delim': DLM, 'policy': POLICY, 'comment_prefix': COMMENT}
+    res = _jsb.node_reader([dict(base, mode='api', chunks=chunks), dict(base, mode='bulk', chunks=[data])])
+    a, b = _jsb._norm_node(res[0]), _jsb._norm_node(res[1])
+    return (a != b, {'node_stream': repr(a)[:300], 'node_bulk': repr(b)[:300]})
 '''
 
 
@@ -86,7 +95,7 @@ exp = norm(bulk(data, ENC, DLM, POLICY, COMMENT))
 got = norm(jsc.read_stream_chunks([jsrt.Buffer(c) for c in chunks], ENC, DLM, POLICY, COMMENT))
 return (got, exp)
 ''' % ', '.join(chunk_exprs))
-    imports = 'ENC = %r\nDLM = %r\nPOLICY = %r\nCOMMENT = %r\n' % (enc, dlm, policy, comment)
+    imports = 'ENC = %r\nDLM = %r\nPOLICY = %r\nCOMMENT = %r\nBOUNDS = %r\n' % (enc, dlm, policy, comment, bounds)
     src = harness(imports, params, pre, body, extra_defs=PRELUDE)
     name = 'stream_vs_bulk[%s|cuts=%s|%s,%s,comment=%r]%s' % ('.'.join(pattern) or 'empty', ','.join(map(str, cuts)) or '-', enc, policy, comment, tag)
     return Obl(name, src, timeout=timeout, expect=expect, finding=finding,
@@ -112,6 +121,8 @@ def obligations(tier, seed):
     n = seed
     for ci, (enc, dlm, policy, comment) in enumerate(cfgs):
         for L in ascii_lens:
+            if quick and L == 3 and ci not in (0, 1):
+                continue
             pat = ['x' if enc == 'binary' else '1'] * L
             for cuts in _all_cuts(L):
                 if quick and len(cuts) == 2 and (n + ci) % 2:
@@ -130,19 +141,22 @@ def obligations(tier, seed):
     for pat, cutlist in (mb if not quick else mb[:3]):
         for cuts in cutlist:
             obs.append(_obl(pat, cuts, 'utf-8', ',', 'quoted', None, t, tag='#char-boundary'))
-    # ... and boundaries INSIDE a multi-byte character are the recorded finding F6 (witness) -- any other failure is a new violation
+    # ... and boundaries INSIDE a multi-byte character (rejected before the fix recorded in known_findings.json: "fixed: property=C20 ...")
     inside = [(['1', '2', '1'], (2,)), (['3', '1'], (1,)), (['3', '1'], (2,)), (['1', '4'], (2,)), (['1', '4'], (3,)), (['2', '2'], (1,)), (['2', '2'], (3,)), (['3ef'], (1,))]
     for pat, cuts in (inside if not quick else inside[:4]):
-        o = _obl(pat, cuts, 'utf-8', ',', 'quoted', None, 120, expect='known', finding='F6', tag='#F6-witness')
-        o.twin = None
-        obs.append(o)
-    # BOM: stream mode strips it silently (finding F8)
-    bom = ['b0 == 0xEF and b1 == 0xBB and b2 == 0xBF']
-    o = _obl(['3ef', '1'], (), 'utf-8', ',', 'quoted', None, 120, expect='known', finding='F8', tag='#F8-witness', extra_pre=bom)
-    o.twin = None
-    obs.append(o)
-    obs.append(_obl(['3ef', '1'], (), 'utf-8', ',', 'quoted', None, t, tag='#not-bom', extra_pre=['not (b0 == 0xEF and b1 == 0xBB and b2 == 0xBF)']))
-    obs.append(_obl(['3ef', '1', 'lf', '1'], (3,), 'utf-8', ',', 'quoted', None, t, tag='#not-bom', extra_pre=['not (b0 == 0xEF and b1 == 0xBB and b2 == 0xBF)']))
+        obs.append(_obl(pat, cuts, 'utf-8', ',', 'quoted', None, t, tag='#inside-char'))
+    # BOM (the class EE..EF / 80..BF / 80..BF contains EF BB BF): same warning in stream and bulk mode, also when the BOM itself is split
+    obs.append(_obl(['3ef', '1'], (), 'utf-8', ',', 'quoted', None, t, tag='#bom-class'))
+    obs.append(_obl(['3ef', '1'], (1,), 'utf-8', ',', 'quoted', None, t, tag='#bom-class'))
+    obs.append(_obl(['3ef', '1', 'lf', '1'], (2,), 'utf-8', ',', 'quoted_rfc', '#', t, tag='#bom-class'))
+    # truncated sequences at the end of input and stray continuation bytes: both modes must reject
+    obs.append(_obl(['1', 'L2only'], (1,), 'utf-8', ',', 'quoted', None, t, tag='#truncated'))
+    obs.append(_obl(['x', 'x'], (1,), 'utf-8', ',', 'simple', None, t, tag='#any-bytes'))
+    if not quick:
+        obs.append(_obl(['x', 'x', 'x'], (1, 2), 'utf-8', ',', 'quoted', None, t, tag='#any-bytes'))
+        obs.append(_obl(['x', 'x', 'x'], (2,), 'utf-8', ',', 'quoted', None, t, tag='#any-bytes'))
     # binary shards with the BOM bytes present must agree (BOM handled by remove_utf8_bom on both paths)
-    obs.append(_obl(['x', 'x', 'x', 'x'], (2,), 'binary', ',', 'quoted', None, t, tag='#binary-any'))
+    obs.append(_obl(['x', 'x', 'x'], (2,), 'binary', ',', 'quoted', None, t, tag='#binary-any'))
+    if not quick:
+        obs.append(_obl(['x', 'x', 'x', 'x'], (2,), 'binary', ',', 'quoted', None, t, tag='#binary-any'))
     return obs
